@@ -159,6 +159,102 @@ def verify_print_with_count(run, tier):
     c02._explore(run, tier, sess, thunk, fq, prefix)
 
 
+# ---------------------------------------------------------------------------------------------- pipeline stages
+STREAM_METHODS = ('kevents', 'formatted_kevents', 'traces', 'formatted_traces', 'callstacks', 'formatted_callstacks',
+                  'os_log_events', 'formatted_logs')
+
+
+def one_pass_generator(gen):
+    """(upstream value, None) when the generator function consumes exactly one pipeline parameter in one top-level
+    `for` loop, mentions it nowhere else and yields only inside that loop: then item k is produced before item k+1 of
+    the upstream is requested, and nothing is produced once the upstream ends.  Otherwise (None, reason)."""
+    import ast as _ast
+    from pyvc.interp import GenVal, LazyIter
+    fdef = gen.func.node
+    ups = [n for n, v in gen.frame.vars.items() if isinstance(v, (GenVal, LazyIter)) or type(v).__name__ == 'StreamSrc']
+    if len(ups) != 1:
+        return None, 'generator with %d stream parameters' % len(ups)
+    up = ups[0]
+    loops = [st for st in fdef.body if isinstance(st, _ast.For) and isinstance(st.iter, _ast.Name) and st.iter.id == up]
+    if len(loops) != 1 or loops[0].orelse:
+        return None, 'the stream parameter is not consumed by exactly one top-level for loop'
+    loop = loops[0]
+    mentions = [n for n in _ast.walk(fdef) if isinstance(n, _ast.Name) and n.id == up and n is not loop.iter]
+    if mentions:
+        return None, 'the stream parameter is used outside the loop header (line %d)' % mentions[0].lineno
+    inside = set(id(n) for n in _ast.walk(loop))
+    for n in _ast.walk(fdef):
+        if isinstance(n, (_ast.Yield, _ast.YieldFrom)) and id(n) not in inside:
+            return None, 'yield outside the consuming loop (line %d)' % n.lineno
+        if isinstance(n, _ast.YieldFrom):
+            return None, 'yield from (line %d)' % n.lineno
+    return gen.frame.vars[up], None
+
+
+def pipeline_shape(v, src):
+    """walk a returned stream value down to the parse source; (ok, description, reason)"""
+    from pyvc.interp import GenVal, LazyIter
+    desc = []
+    while True:
+        if isinstance(v, LazyIter):
+            if v.kind not in ('filter', 'map'):
+                return False, desc, 'stage %s' % v.kind
+            desc.append(v.kind)
+            v = v.src
+        elif isinstance(v, GenVal):
+            nxt, why = one_pass_generator(v)
+            if nxt is None:
+                return False, desc, '%s: %s' % (v.func.name, why)
+            desc.append('generator ' + v.func.name)
+            v = nxt
+        elif v is src and v is not None:
+            desc.append('parse')
+            return True, desc, None
+        else:
+            return False, desc, 'stream of unrecognised kind %s' % type(v).__name__
+
+
+def verify_pipeline(run, tier):
+    """every listing of PyKdebugParser is a chain of lazy element-wise stages (filter / map / one-pass generators) over
+    KdBufParser.parse: together with M2 this carries the per-function prefix results to events, traces, lines"""
+    from checks import c13
+    sess = Session()
+    it = sess.it
+    holder = {}
+    c13.install_contracts(sess, holder)
+    fqc = 'pykdebugparser.pykdebugparser:PyKdebugParser'
+    for meth in STREAM_METHODS:
+        prefix = 'C06/pipeline/%s' % meth
+        result = {}
+
+        def thunk(ctx, meth=meth):
+            holder.clear()
+            self_, sets, _ = c13.setup(sess, ctx)
+            reader = Obj(ClassVal('Reader', None, 'plain'), {})
+            res = it.call(it.lib.getattr_(it, self_, meth), [reader], {})
+            ok, desc, why = pipeline_shape(res, holder.get('src'))
+            result.setdefault('shapes', []).append((ok, desc, why))
+            return res
+        try:
+            prs = sess.explore(thunk)
+        except Unsupported as ex:
+            run.add(prefix + '.lazy-elementwise-stages', 'unsupported', '', 0, fqc + '.' + meth, str(ex))
+            run.pending_failures.append((prefix + '.lazy-elementwise-stages', 'unsupported', str(ex)))
+            continue
+        bad = [(d, w) for ok, d, w in result.get('shapes', []) if not ok]
+        raised = [p for p in prs if p.outcome == 'raise']
+        if not result.get('shapes'):
+            run.engine_error('C06 pipeline %s: no path explored' % meth)
+        elif bad or raised:
+            why = bad[0][1] if bad else '%s raised' % meth
+            # an unrecognised shape is not a refutation: undecided unless the native sweep finds a failing dump
+            run.add(prefix + '.lazy-elementwise-stages', 'unknown', 'shape analysis', 0, fqc + '.' + meth, why)
+            run.pending_failures.append((prefix + '.lazy-elementwise-stages', 'unknown', why))
+        else:
+            run.add(prefix + '.lazy-elementwise-stages', 'proved', 'shape analysis (%d configurations)' % len(result['shapes']), 0, fqc + '.' + meth)
+
+
+
 def prefix_lemma(run, tier):
     """if both runs are characterised by the record-loop invariant (event j = decode of file[b+64j : b+64j+64] lying
     inside the file, b = end of the header as parsed), then the events of a truncation are a prefix of the events
@@ -207,13 +303,12 @@ def run_check(run, tier):
     from checks import c03
     c03.verify_chunk_loops(run, tier, wf=False, prefix='C06/parse_v3')
     verify_print_with_count(run, tier)
+    verify_pipeline(run, tier)
     prefix_lemma(run, tier)
     finish(run)
 
 
 def finish(run):
-    if not run.pending_failures and run.tier != 'thorough':
-        return
     out = native({'kind': 'truncation_search', 'seed': run.seed, 'budget': 40 if run.tier == 'quick' else 200}, timeout=900)
     run.bounded.append({'what': 'native truncation sweep: every cut offset of small version-2 and version-3 dumps under a read budget (refute mode only)',
                         'cuts_tried': out.get('tried'), 'bound': out.get('bound'), 'found': bool(out.get('found'))})
